@@ -3,7 +3,6 @@
 use std::io::Read;
 use std::io::BufReader;
 use std::fs::File;
-use std::fs::symlink_metadata;
 use std::path::{Path, PathBuf};
 verus! {
 //@include prelude/axioms.rs
@@ -69,7 +68,8 @@ pub struct ExMetadata(std::fs::Metadata);
 #[verifier::external_body]
 pub struct ExFileType(std::fs::FileType);
 pub assume_specification<P: AsRef<Path>> [std::fs::symlink_metadata::<P>] (p: P) -> (r: std::io::Result<std::fs::Metadata>);
-pub assume_specification<P: AsRef<Path>> [std::fs::read_link::<P>] (p: P) -> (r: std::io::Result<PathBuf>);
+pub assume_specification<P: AsRef<Path>> [std::fs::metadata::<P>] (p: P) -> (r: std::io::Result<std::fs::Metadata>);
+pub assume_specification [std::fs::Metadata::is_file] (m: &std::fs::Metadata) -> (r: bool);
 pub assume_specification [std::fs::Metadata::file_type] (m: &std::fs::Metadata) -> (r: std::fs::FileType);
 pub assume_specification [std::fs::FileType::is_symlink] (t: &std::fs::FileType) -> (r: bool);
 pub assume_specification [std::fs::FileType::is_file] (t: &std::fs::FileType) -> (r: bool);
@@ -146,7 +146,6 @@ pub proof fn lemma_log_push(m0: Map<VirtualTargetPath, TargetDescription>, recs:
 }
 //@extract src/runlib.rs fn:record_artifacts props=C18,C14
 //@subst D27 /String::from\(&path\)/ => path.clone()
-//@subst D27 /String::from\(str\)/ => str.to_owned()
 //@subst G2 /let mut visited_sym_links = HashSet::new\(\);/ => let mut visited_sym_links: HashSet<String> = HashSet::new();
 //@subst G2 /let mut map = vec!\[\];/ => let mut map: Vec<HashAlgorithm> = vec![];
 //@contract ret=r
